@@ -41,7 +41,12 @@ def _select(fields, named, kind):
         isbt = f["ty"] == "bt"
         if named:
             return f["name"] in ("source", "r#source") if kind == "source" else (f["name"] == "backtrace" or isbt)
-        return (n == 1 and not isbt) if kind == "source" else isbt
+        if kind == "source":
+            # error.md: "exactly one field that is not used as the backtrace": the sole field, unless IT is the backtrace (marked so, or
+            # of a type named Backtrace and not marked `not(backtrace)`)
+            bta = ATTRS[f["attr"]]["bt"]
+            return n == 1 and not (bta is True or (bta is None and isbt))
+        return isbt
 
     cands = [i for i in en if ATTRS[fields[i]["attr"]][key] is None and default(fields[i])]
     if len(cands) > 1:
@@ -99,7 +104,7 @@ def observe_source(out, named, fields, container):
     if "fn source" not in out:
         return None
     if container == "struct":
-        m = re.search(r"Some \(self \. ((?:r#)?\w+) \. as_dyn_error", out)
+        m = re.search(r"Some \(self \. ((?:r#)?\w+) \. \w*as_dyn_error", out)
         if not m:
             return "unrecognised"
         name = m.group(1)
@@ -109,7 +114,7 @@ def observe_source(out, named, fields, container):
                     return i
             return "unrecognised"
         return int(name)
-    m = re.search(r"S :: V ([({])(.*?)[)}] => (?:derive_more :: core :: option :: Option :: )?Some \(source \. as_dyn_error", out)
+    m = re.search(r"S :: V ([({])(.*?)[)}] => (?:derive_more :: core :: option :: Option :: )?Some \(source \. \w*as_dyn_error", out)
     if not m:
         # variant V may simply have no source arm
         return None if "S :: V" not in out.split("fn source")[1].split("fn provide")[0] else "unrecognised"
@@ -139,7 +144,13 @@ macro_rules! errty { ($n:ident) => {
     #[derive(Debug)] pub struct $n(pub u32);
     impl ::core::fmt::Display for $n { fn fmt(&self, f: &mut ::core::fmt::Formatter<'_>) -> ::core::fmt::Result { write!(f, stringify!($n)) } }
     impl StdError for $n {}
+    // decoy: an inherent method named like the helper trait method the expansion calls on the source field
+    impl $n { #[allow(dead_code)] pub fn as_dyn_error(&self) -> &(dyn StdError + 'static) { &DECOY } }
 } }
+#[derive(Debug)] pub struct Decoy;
+impl ::core::fmt::Display for Decoy { fn fmt(&self, f: &mut ::core::fmt::Formatter<'_>) -> ::core::fmt::Result { write!(f, "Decoy") } }
+impl StdError for Decoy {}
+pub static DECOY: Decoy = Decoy;
 errty!(E0); errty!(E1); errty!(E2); errty!(E9);
 pub type BoxErr = Box<dyn StdError + Send + Sync + 'static>;
 // the four trait-object flavours the vendored `AsDynError` supports, holding an error that has a source of its own: `source()`
